@@ -1,3 +1,610 @@
 package main
 
-func runC12(id string) int { return 2 }
+import (
+	"fmt"
+	"reflect"
+	"sort"
+
+	"verif/internal/onto"
+	"verif/internal/prng"
+	"verif/internal/reg"
+	"verif/internal/verdict"
+)
+
+type c12Case struct {
+	Part  string                 `json:"part"`
+	Type  string                 `json:"type,omitempty"`
+	Prop  string                 `json:"property,omitempty"`
+	Kind  string                 `json:"kind,omitempty"`
+	Value interface{}            `json:"value,omitempty"`
+	Doc   map[string]interface{} `json:"doc,omitempty"`
+}
+
+func inList(l []string, s string) bool {
+	for _, x := range l {
+		if x == s {
+			return true
+		}
+	}
+	return false
+}
+
+// sampleFor picks one unambiguous sample value for a property.
+func sampleFor(p string) interface{} {
+	if l := O.KindLits(p); len(l) > 0 {
+		for _, k := range l {
+			if k != "RDFLangString" {
+				return baseSamples(k)[0]
+			}
+		}
+	}
+	if t := O.KindTypes(p); len(t) > 0 {
+		return typeSample(t[0], 0)
+	}
+	return "https://example.com/iri"
+}
+
+func typelessInRange(p string) bool {
+	for _, k := range O.KindTypes(p) {
+		if O.Types[k].Typeless {
+			return true
+		}
+	}
+	return false
+}
+
+func unknownOf(t interface{}) map[string]interface{} {
+	o, ok, p := callM(reflect.ValueOf(t), "GetUnknownProperties")
+	if !ok || p != nil {
+		return nil
+	}
+	m, _ := o[0].Interface().(map[string]interface{})
+	return m
+}
+
+func docFor(typeKey string, members map[string]interface{}) map[string]interface{} {
+	d := map[string]interface{}{"@context": allContexts(), "type": O.Types[typeKey].Name, "id": "https://example.com/host"}
+	for k, v := range members {
+		d[k] = v
+	}
+	return d
+}
+
+type c12 struct {
+	r *verdict.Run
+}
+
+func (c *c12) viol(rule, site string, cs c12Case, msg string) {
+	feat := cs.Type + "/" + cs.Prop
+	if cs.Kind != "" {
+		feat = cs.Prop + "/" + cs.Kind
+	}
+	c.r.Violate(verdict.Sig{Rule: "C12." + rule, Site: site, Feature: feat}, cs, msg)
+}
+
+// partA judges one (type, property) pair.
+func (c *c12) partA(T, P string) {
+	r := c.r
+	pr := O.Props[P]
+	// skip when another property of the same JSON name is on the type
+	for _, q := range O.PropKeys {
+		if q != P && O.Props[q].Name == pr.Name {
+			r.Count("partA.skipped_name_collision", 1)
+			return
+		}
+	}
+	sample := sampleFor(P)
+	doc := docFor(T, map[string]interface{}{pr.Name: sample})
+	cs := c12Case{Part: "A", Type: T, Prop: P, Doc: doc}
+	r.Eval(1)
+	t, err, pan := decode(doc)
+	if pan != nil || err != nil || t == nil {
+		c.viol("decode-failed", "streams.ToType", cs, fmt.Sprintf("err=%v panic=%v", err, pan))
+		return
+	}
+	has := O.HasProp(T, P)
+	prop, exists := getProp(t, P)
+	unk := unknownOf(t)
+	if unk == nil {
+		c.viol("no-unknown-map", "GetUnknownProperties", cs, "GetUnknownProperties missing or nil")
+		return
+	}
+	setter := method(reflect.ValueOf(t), "Set"+P)
+	if has {
+		r.NonTrivial("A|" + T + "|" + P)
+		if !exists {
+			c.viol("accessor-missing", "Get"+P, cs, "ontology gives the type this property but the accessor does not exist")
+			return
+		}
+		if isNil(prop) {
+			c.viol("accessor-nil", "Get"+P, cs, "document set the property but the accessor returned nil")
+		}
+		if _, in := unk[pr.Name]; in {
+			c.viol("known-kept-as-unknown", "GetUnknownProperties", cs, "member of a known property was left in the unknown map")
+		}
+		if !setter.IsValid() {
+			c.viol("setter-missing", "Set"+P, cs, "no setter")
+		}
+		// Map spelling
+		mdoc := docFor(T, map[string]interface{}{pr.Name + "Map": map[string]interface{}{"en": "hello", "fr": "bonjour"}})
+		mcs := c12Case{Part: "A.map", Type: T, Prop: P, Doc: mdoc}
+		r.Eval(1)
+		mt, merr, mpan := decode(mdoc)
+		if mpan != nil || merr != nil || mt == nil {
+			c.viol("decode-failed", "streams.ToType", mcs, fmt.Sprintf("err=%v panic=%v", merr, mpan))
+			return
+		}
+		mprop, _ := getProp(mt, P)
+		munk := unknownOf(mt)
+		if pr.NatLang {
+			if isNil(mprop) {
+				c.viol("natlang-map-not-read", "Get"+P, mcs, "the Map spelling was not read into the natural-language property")
+				return
+			}
+			els, e := propElems(mprop, pr.Functional)
+			if e != nil || len(els) != 1 {
+				c.viol("natlang-map-elements", "Get"+P, mcs, fmt.Sprintf("elements=%d err=%v", len(els), e))
+				return
+			}
+			fl := trueFlags(els[0])
+			if len(fl) != 1 || fl[0] != "RDFLangString" {
+				c.viol("natlang-map-kind", "Is*", mcs, fmt.Sprintf("flags=%v", fl))
+			} else {
+				lv, _ := denote("RDFLangString", mdoc[pr.Name+"Map"])
+				g, _ := getKind(els[0], "RDFLangString")
+				if ok, why := lv.matches(g); !ok {
+					c.viol("natlang-map-value", "GetRDFLangString", mcs, why)
+				}
+			}
+			out, serr, span := encode(mt)
+			if serr != nil || span != nil {
+				c.viol("encode-failed", "streams.Serialize", mcs, fmt.Sprintf("err=%v panic=%v", serr, span))
+			} else if !reflect.DeepEqual(normJSON(out[pr.Name+"Map"]), normJSON(mdoc[pr.Name+"Map"])) {
+				c.viol("natlang-map-not-written", "streams.Serialize", mcs, fmt.Sprintf("output %s", jstr(out)))
+			}
+			r.NonTrivial("A.map|" + T + "|" + P)
+		} else {
+			if !isNil(mprop) {
+				c.viol("map-read-by-non-natlang", "Get"+P, mcs, "a 'Map' member was interpreted by a property that is not natural-language")
+			}
+			if _, in := munk[pr.Name+"Map"]; !in {
+				c.viol("map-member-lost", "GetUnknownProperties", mcs, "unknown 'Map' member not kept")
+			}
+		}
+	} else {
+		if exists {
+			c.viol("accessor-extra", "Get"+P, cs, "type exposes a property the ontology does not give it")
+		}
+		if setter.IsValid() {
+			c.viol("setter-extra", "Set"+P, cs, "type exposes a setter for a property the ontology does not give it")
+		}
+		if got, in := unk[pr.Name]; !in || !reflect.DeepEqual(normJSON(got), normJSON(sample)) {
+			c.viol("foreign-member-not-unknown", "GetUnknownProperties", cs, fmt.Sprintf("unknown[%s]=%s", pr.Name, jstr(got)))
+		}
+	}
+}
+
+// elemFor decodes host{P: v} and returns the single element holding v.
+func (c *c12) elemFor(P string, host string, v interface{}, cs *c12Case) (elem, prop reflect.Value, ok bool) {
+	pr := O.Props[P]
+	doc := docFor(host, map[string]interface{}{pr.Name: v})
+	cs.Doc = doc
+	c.r.Eval(1)
+	t, err, pan := decode(doc)
+	if pan != nil || err != nil || t == nil {
+		c.viol("decode-failed", "streams.ToType", *cs, fmt.Sprintf("err=%v panic=%v", err, pan))
+		return
+	}
+	prop, exists := getProp(t, P)
+	if !exists || isNil(prop) {
+		c.viol("accessor-nil", "Get"+P, *cs, "host type did not expose the set property")
+		return
+	}
+	els, e := propElems(prop, pr.Functional)
+	if e != nil || len(els) != 1 {
+		c.viol("element-count", "Get"+P, *cs, fmt.Sprintf("elements=%d err=%v", len(els), e))
+		return
+	}
+	return els[0], prop, true
+}
+
+// judgeLiteral checks the element produced for a literal/IRI sample.
+func (c *c12) judgeLiteral(P, K string, admissible bool, sample interface{}, host string) {
+	cs := c12Case{Part: "B.lit", Type: host, Prop: P, Kind: K, Value: sample}
+	elem, prop, ok := c.elemFor(P, host, sample, &cs)
+	if !ok {
+		return
+	}
+	// candidates: admissible kinds whose lexical space contains the sample
+	var cands []string
+	for _, k := range append(O.KindLits(P), "IRI") {
+		if _, ok := denote(k, sample); ok {
+			cands = append(cands, k)
+		}
+	}
+	if _, isMap := sample.(map[string]interface{}); isMap && typelessInRange(P) {
+		return // any JSON object is lexically a value of a typeless type
+	}
+	if f, isNum := sample.(float64); isNum && f != float64(int64(f)) && inList(O.KindLits(P), "XMLSchemaNonNegativeInteger") {
+		// a non-integral number is not a canonical count; whether a count
+		// property rejects or rounds it is not stated by the property
+		c.r.Count("partB.skipped_unspecified_lexical_form", 1)
+		return
+	}
+	fl := trueFlags(elem)
+	if len(cands) == 0 {
+		if len(fl) != 0 {
+			c.viol("inadmissible-literal-accepted", "Is*", cs, fmt.Sprintf("no admissible kind can read %s but flags=%v", jstr(sample), fl))
+		} else {
+			// must be kept raw
+			o, okS, p := callM(prop, "Serialize")
+			if okS && p == nil && !reflect.DeepEqual(normJSON(o[0].Interface()), normJSON(sample)) {
+				c.viol("raw-value-lost", "Serialize", cs, fmt.Sprintf("got %s", jstr(o[0].Interface())))
+			}
+		}
+		return
+	}
+	if len(fl) != 1 {
+		c.viol("kind-flag-count", "Is*", cs, fmt.Sprintf("flags=%v candidates=%v", fl, cands))
+		return
+	}
+	if !inList(cands, fl[0]) {
+		c.viol("wrong-kind", "Is*", cs, fmt.Sprintf("flag=%s candidates=%v", fl[0], cands))
+		return
+	}
+	if admissible && len(cands) == 1 && fl[0] != K {
+		c.viol("wrong-kind", "Is*", cs, fmt.Sprintf("flag=%s want %s", fl[0], K))
+	}
+	lv, _ := denote(fl[0], sample)
+	g, okG := getKind(elem, fl[0])
+	if !okG {
+		c.viol("getter-missing", "Get"+fl[0], cs, "no typed accessor")
+		return
+	}
+	if ok, why := lv.matches(g); !ok {
+		c.viol("wrong-value", "Get"+fl[0], cs, why)
+	}
+	if admissible {
+		c.r.NonTrivial("B|" + P + "|" + K + "|" + jstr(sample))
+	}
+}
+
+func (c *c12) partB(P string) {
+	r := c.r
+	pr := O.Props[P]
+	host := hostType(P)
+	if host == "" {
+		r.Count("partB.property_without_host_type", 1)
+		return
+	}
+	adT := O.KindTypes(P)
+	adL := O.KindLits(P)
+	// structural: functional vs non-functional container
+	ctor, okC := reg.PropCtors[P]
+	if !okC {
+		c.viol("property-constructor-missing", "streams.New"+P+"Property", c12Case{Part: "B.struct", Prop: P}, "")
+	} else {
+		pv := reflect.ValueOf(ctor).Call(nil)[0]
+		pv = concrete(pv)
+		hasLen := method(pv, "Len").IsValid() && method(pv, "At").IsValid() && method(pv, "Swap").IsValid() && method(pv, "Remove").IsValid()
+		hasClear := method(pv, "Clear").IsValid()
+		r.Eval(1)
+		if pr.Functional && (hasLen || !hasClear) {
+			c.viol("functional-shape", "vocab."+P+"Property", c12Case{Part: "B.struct", Prop: P}, "functional property exposes a list interface")
+		}
+		if !pr.Functional && !hasLen {
+			c.viol("nonfunctional-shape", "vocab."+P+"Property", c12Case{Part: "B.struct", Prop: P}, "non-functional property lacks the list interface")
+		}
+	}
+	// type kinds
+	for _, K := range O.TypeKeys {
+		adm := inList(adT, K)
+		cs := c12Case{Part: "B.type", Type: host, Prop: P, Kind: K, Value: typeSample(K, 0)}
+		elem, prop, ok := c.elemFor(P, host, cs.Value, &cs)
+		if !ok {
+			continue
+		}
+		flagsAvail := kindFlags(elem)
+		fl := trueFlags(elem)
+		if adm {
+			r.NonTrivial("B|" + P + "|" + K)
+			if !inList(flagsAvail, K) {
+				c.viol("kind-method-missing", "Is"+K, cs, "admissible kind has no Is method")
+				continue
+			}
+			if O.Types[K].Typeless || typelessInRange(P) {
+				// typeless kinds have no discriminator; only demand that it is read as some admissible kind
+				if len(fl) != 1 || !inList(adT, fl[0]) {
+					c.viol("wrong-kind", "Is*", cs, fmt.Sprintf("flags=%v", fl))
+				}
+				continue
+			}
+			if len(fl) != 1 || fl[0] != K {
+				c.viol("wrong-kind", "Is*", cs, fmt.Sprintf("flags=%v want [%s]", fl, K))
+				continue
+			}
+			g, okG := getKind(elem, K)
+			if !okG || isNil(g) {
+				c.viol("getter-nil", "Get"+K, cs, "typed accessor returned nil")
+				continue
+			}
+			if o, okN, p := callM(concrete(g), "GetTypeName"); !okN || p != nil || o[0].String() != O.Types[K].Name {
+				c.viol("wrong-value", "Get"+K, cs, "typed accessor returned a value of another type")
+			}
+			if o, okT, p := callM(elem, "GetType"); okT && p == nil && isNil(o[0]) {
+				c.viol("gettype-nil", "GetType", cs, "GetType returned nil for an embedded object")
+			}
+		} else {
+			if inList(flagsAvail, K) {
+				c.viol("kind-method-extra", "Is"+K, cs, "property admits a type kind outside its declared range")
+			}
+			if typelessInRange(P) {
+				continue
+			}
+			if len(fl) != 0 {
+				c.viol("inadmissible-type-accepted", "Is*", cs, fmt.Sprintf("flags=%v", fl))
+				continue
+			}
+			o, okS, p := callM(prop, "Serialize")
+			if okS && p == nil && !reflect.DeepEqual(normJSON(o[0].Interface()), normJSON(cs.Value)) {
+				c.viol("raw-value-lost", "Serialize", cs, fmt.Sprintf("got %s", jstr(o[0].Interface())))
+			}
+		}
+	}
+	// literal kinds
+	var anyElem reflect.Value
+	{
+		cs := c12Case{Part: "B.iri", Type: host, Prop: P, Kind: "IRI", Value: "https://example.com/iri"}
+		anyElem, _, _ = c.elemFor(P, host, cs.Value, &cs)
+	}
+	for _, K := range onto.LiteralKinds() {
+		adm := inList(adL, K)
+		if anyElem.IsValid() {
+			has := inList(kindFlags(anyElem), K)
+			if adm && !has {
+				c.viol("kind-method-missing", "Is"+K, c12Case{Part: "B.lit", Prop: P, Kind: K}, "admissible literal kind has no Is method")
+			}
+			if !adm && has {
+				c.viol("kind-method-extra", "Is"+K, c12Case{Part: "B.lit", Prop: P, Kind: K}, "property admits a literal kind outside its declared range")
+			}
+		}
+		samples := baseSamples(K)
+		if adm && *tier == "thorough" {
+			for i := 0; i < 2000; i++ {
+				samples = append(samples, randomSample(K, prng.New(r.SeedV, "C12.lit."+P+"."+K, i)))
+			}
+		} else if adm {
+			for i := 0; i < 40; i++ {
+				samples = append(samples, randomSample(K, prng.New(r.SeedV, "C12.lit."+P+"."+K, i)))
+			}
+		}
+		for _, s := range samples {
+			c.judgeLiteral(P, K, adm, s, host)
+		}
+	}
+	// IRI: always admissible
+	for _, s := range []interface{}{"https://example.com/iri", "http://example.org/a?b=c#d", "urn:example:x"} {
+		c.judgeLiteral(P, "IRI", true, s, host)
+	}
+	if anyElem.IsValid() && !inList(kindFlags(anyElem), "IRI") {
+		c.viol("kind-method-missing", "IsIRI", c12Case{Part: "B.iri", Prop: P, Kind: "IRI"}, "no IsIRI")
+	}
+	// programmatic IRI path
+	if okC {
+		pv := concrete(reflect.ValueOf(ctor).Call(nil)[0])
+		u := mustURL("https://example.com/set-iri")
+		var el reflect.Value
+		if pr.Functional {
+			callM(pv, "SetIRI", u)
+			el = pv
+		} else {
+			callM(pv, "AppendIRI", u)
+			if els, e := propElems(pv, false); e == nil && len(els) == 1 {
+				el = els[0]
+			}
+		}
+		r.Eval(1)
+		cs := c12Case{Part: "B.iri.set", Prop: P, Kind: "IRI", Value: u.String()}
+		if !el.IsValid() {
+			c.viol("iri-setter", "SetIRI/AppendIRI", cs, "could not store an IRI")
+		} else {
+			fl := trueFlags(el)
+			if len(fl) != 1 || (fl[0] != "IRI" && fl[0] != "XMLSchemaAnyURI") {
+				c.viol("iri-setter", "IsIRI", cs, fmt.Sprintf("flags=%v", fl))
+			}
+			if o, okS, p := callM(pv, "Serialize"); !okS || p != nil || !reflect.DeepEqual(o[0].Interface(), interface{}(u.String())) {
+				c.viol("iri-setter", "Serialize", cs, "IRI not serialised as its string")
+			}
+		}
+	}
+	// lists
+	var pool []interface{}
+	for _, k := range adT {
+		if !O.Types[k].Typeless {
+			pool = append(pool, typeSample(k, len(pool)))
+		}
+		if len(pool) >= 3 {
+			break
+		}
+	}
+	for _, k := range adL {
+		for _, s := range baseSamples(k) {
+			pool = append(pool, s)
+			break
+		}
+	}
+	pool = append(pool, "https://example.com/iri/1", "https://example.com/iri/2")
+	if typelessInRange(P) {
+		pool = []interface{}{"https://example.com/iri/1", "https://example.com/iri/2", "https://example.com/iri/3"}
+	}
+	g := prng.New(r.SeedV, "C12.list."+P)
+	for rep := 0; rep < 4; rep++ {
+		n := 2 + g.Intn(3)
+		var list []interface{}
+		for i := 0; i < n; i++ {
+			list = append(list, pool[g.Intn(len(pool))])
+		}
+		doc := docFor(host, map[string]interface{}{pr.Name: list})
+		cs := c12Case{Part: "B.list", Type: host, Prop: P, Value: list, Doc: doc}
+		r.Eval(1)
+		t, err, pan := decode(doc)
+		if pan != nil || err != nil || t == nil {
+			c.viol("decode-failed", "streams.ToType", cs, fmt.Sprintf("err=%v panic=%v", err, pan))
+			continue
+		}
+		prop, _ := getProp(t, P)
+		if isNil(prop) {
+			c.viol("accessor-nil", "Get"+P, cs, "")
+			continue
+		}
+		if pr.Functional {
+			if len(trueFlags(prop)) > 1 {
+				c.viol("functional-holds-many", "Is*", cs, "functional property reports several kinds at once")
+			}
+			continue
+		}
+		els, e := propElems(prop, false)
+		if e != nil || len(els) != n {
+			c.viol("list-length", "Len", cs, fmt.Sprintf("len=%d want %d err=%v", len(els), n, e))
+			continue
+		}
+		r.NonTrivial("B.list|" + P + "|" + jstr(list))
+		for i, el := range els {
+			o, okS, p := callM(prop, "Serialize")
+			if okS && p == nil {
+				if arr, isArr := o[0].Interface().([]interface{}); isArr && len(arr) == n {
+					if !reflect.DeepEqual(normJSON(arr[i]), normJSON(list[i])) {
+						c.viol("list-order", "Serialize", cs, fmt.Sprintf("index %d: got %s want %s", i, jstr(arr[i]), jstr(list[i])))
+					}
+				}
+			}
+			fl := trueFlags(el)
+			if len(fl) != 1 {
+				c.viol("list-element-kind", "Is*", cs, fmt.Sprintf("index %d flags=%v", i, fl))
+				continue
+			}
+			if m, isMap := list[i].(map[string]interface{}); isMap {
+				if tn, _ := m["type"].(string); tn != "" {
+					if g, okG := getKind(el, fl[0]); !okG || isNil(g) {
+						c.viol("list-element-value", "Get"+fl[0], cs, fmt.Sprintf("index %d", i))
+					} else if o, okN, p := callM(concrete(g), "GetTypeName"); !okN || p != nil || o[0].String() != tn {
+						c.viol("list-element-value", "Get"+fl[0], cs, fmt.Sprintf("index %d: wrong type", i))
+					} else if idp, okI, _ := callM(concrete(g), "GetJSONLDId"); okI && !isNil(idp[0]) {
+						if u, okU, _ := callM(concrete(idp[0]), "Get"); okU && fmt.Sprint(u[0].Interface()) != m["id"] {
+							c.viol("list-order", "At", cs, fmt.Sprintf("index %d holds %v want %v", i, u[0].Interface(), m["id"]))
+						}
+					}
+				}
+			} else if lv, okD := denote(fl[0], list[i]); okD {
+				g, _ := getKind(el, fl[0])
+				if ok, why := lv.matches(g); !ok {
+					c.viol("list-order", "At", cs, fmt.Sprintf("index %d: %s", i, why))
+				}
+			}
+		}
+	}
+}
+
+// normJSON maps numeric types to float64 and typed maps to generic ones so
+// that DeepEqual compares JSON values.
+func normJSON(v interface{}) interface{} {
+	switch x := v.(type) {
+	case map[string]interface{}:
+		m := map[string]interface{}{}
+		for k, vv := range x {
+			m[k] = normJSON(vv)
+		}
+		return m
+	case map[string]string:
+		m := map[string]interface{}{}
+		for k, vv := range x {
+			m[k] = vv
+		}
+		return m
+	case []interface{}:
+		a := make([]interface{}, len(x))
+		for i := range x {
+			a[i] = normJSON(x[i])
+		}
+		return a
+	case []string:
+		a := make([]interface{}, len(x))
+		for i := range x {
+			a[i] = x[i]
+		}
+		return a
+	case int:
+		return float64(x)
+	case int64:
+		return float64(x)
+	case float32:
+		return float64(x)
+	}
+	return v
+}
+
+func runC12(id string) int {
+	r := verdict.New(id, *tier, "exploration")
+	r.Rule = "exhaustive (type, property) pairs and (property, value kind) pairs over the ontology (kinds = every type, every literal kind, IRI), each decoded from a generated document and inspected through the typed accessors; literal kinds sampled (fixed boundary samples + seeded random canonical forms); non-trivial = pair where the ontology gives the type the property / admits the kind (an accessor must answer); distinct by pair (+sample)"
+	r.Exhaustive = true
+	r.Assumptions = []string{"ontology oracle parses astool/*.jsonld correctly", "literal semantics table (hand-written RFC3339 / duration parsers) is correct", "lexically ambiguous samples (e.g. an IRI given to a string-ranged property, any object given to a typeless-ranged property) are judged by membership in the admissible kinds, not by one particular kind"}
+	c := &c12{r: r}
+	if *replay != "" {
+		var cs c12Case
+		if err := readReplayCase(*replay, &cs); err != nil {
+			fmt.Println("replay:", err)
+			return 2
+		}
+		r.MinNontrivial = 0
+		switch cs.Part {
+		case "A", "A.map":
+			c.partA(cs.Type, cs.Prop)
+		default:
+			c.partB(cs.Prop)
+		}
+		return r.Finish()
+	}
+	typeSetCheck(r, "C12")
+	// property set check
+	for _, p := range O.PropKeys {
+		if _, ok := reg.PropCtors[p]; !ok {
+			r.Violate(verdict.Sig{Rule: "C12.property-missing", Site: "streams.New" + p + "Property", Feature: p}, p, "ontology property has no constructor")
+		}
+	}
+	var extra []string
+	for p := range reg.PropCtors {
+		if O.Props[p] == nil && p != "JSONLDId" && p != "JSONLDType" {
+			extra = append(extra, p)
+		}
+	}
+	sort.Strings(extra)
+	for _, p := range extra {
+		r.Violate(verdict.Sig{Rule: "C12.property-extra", Site: "streams.New" + p + "Property", Feature: p}, p, "streams has a property the ontology does not define")
+	}
+	for _, T := range O.TypeKeys {
+		v := newType(T)
+		if v == nil {
+			continue
+		}
+		rv := reflect.ValueOf(v)
+		r.Eval(1)
+		if !method(rv, "GetJSONLDId").IsValid() {
+			c.viol("id-accessor-missing", "GetJSONLDId", c12Case{Part: "A.id", Type: T}, "")
+		}
+		if method(rv, "GetJSONLDType").IsValid() == O.Types[T].Typeless {
+			c.viol("type-accessor", "GetJSONLDType", c12Case{Part: "A.type", Type: T}, fmt.Sprintf("typeless=%v but accessor present=%v", O.Types[T].Typeless, !O.Types[T].Typeless))
+		}
+		for _, P := range O.PropKeys {
+			c.partA(T, P)
+		}
+	}
+	r.Count("partA.pairs", len(O.TypeKeys)*len(O.PropKeys))
+	for _, P := range O.PropKeys {
+		c.partB(P)
+	}
+	r.Count("partB.pairs", len(O.PropKeys)*(len(O.TypeKeys)+len(onto.LiteralKinds())+1))
+	r.Sample(c12Case{Part: "A", Type: "ActivityStreamsNote", Prop: "ActivityStreamsContent", Doc: docFor("ActivityStreamsNote", map[string]interface{}{"content": sampleFor("ActivityStreamsContent")})})
+	r.Sample(c12Case{Part: "B.type", Type: hostType("ActivityStreamsInbox"), Prop: "ActivityStreamsInbox", Kind: "ActivityStreamsOrderedCollectionPage", Value: typeSample("ActivityStreamsOrderedCollectionPage", 0)})
+	r.Sample(c12Case{Part: "B.lit", Prop: "ActivityStreamsDuration", Kind: "XMLSchemaDuration", Value: "P1Y2M3DT4H5M6S"})
+	return r.Finish()
+}
